@@ -98,6 +98,29 @@ def run_views(case):
         shutil.rmtree(base, ignore_errors=True)
 
 
+def run_same_strings(case):
+    """The same (relative) configuration strings given to set_store from two working directories in one process: a relative
+    directory is resolved where the store is created, so these are two stores (independent views, shared blobs iff the
+    internal directory is absolute); a second process started in the second directory must see the second view."""
+    base = tempfile.mkdtemp(prefix="c16s_", dir=C.scratch_dir())
+    try:
+        write_mod(base)
+        for d in ("proj_a", "proj_b"):
+            os.makedirs(os.path.join(base, d))
+        cfg = {"internal_dir": os.path.join(base, "int") if case["internal"] == "absolute" else "int", "data_dir": "data", "cache_objects": case["cache"]}
+        steps = [{"chdir": "proj_a"}, {"set_store": cfg}, {"keep": ["/p", "s0"]}, {"load": "/p"},
+                 {"chdir": "proj_b"}, {"set_store": cfg}, {"keep": ["/p", "s1"]}, {"load": "/p"},
+                 {"chdir": "proj_a"}, {"set_store": cfg}, {"load": "/p"}, {"keep": ["/p", "s0"]}]
+        r1 = C.run_driver("drive_config.py", {"base": base, "steps": steps})
+        r2 = C.run_driver("drive_config.py", {"base": base, "steps": [{"chdir": "proj_b"}, {"set_store": cfg}, {"load": "/p"}]})
+        files = {d: os.path.lexists(os.path.join(base, d, "data", "p")) for d in ("proj_a", "proj_b")}
+        return {"case": case, "r1": r1, "r2": r2, "files": files}
+    except Exception as e:  # noqa
+        return {"case": case, "error": str(e)[-500:]}
+    finally:
+        shutil.rmtree(base, ignore_errors=True)
+
+
 def run(rep, tier, seed, proof_ok):
     rng = random.Random(seed)
     rep.rule = ("local-store configurations: internal_dir x data_dir shapes {absolute, relative, ./relative, trailing slash, nested "
@@ -105,7 +128,7 @@ def run(rep, tier, seed, proof_ok):
                 "True, 0, -1, 2}; in one process: set_store, keep, load, chdir, load, re-keep (must not recompute), keep another path, "
                 "keep changed code; in a second process with the same configuration: load both paths, re-keep (must not recompute); "
                 "plus two data directories on one internal directory used alternately (blobs shared: no recomputation; paths "
-                "independent); quick: all shape pairs with a rotating cache option; thorough: full product; non-trivial = a shape "
+                "independent); plus the same relative configuration strings given to set_store from two working directories in one process; quick: all shape pairs with a rotating cache option; thorough: full product; non-trivial = a shape "
                 "other than absolute/absolute")
     shapes = list(DIR_SHAPES)
     cases = []
@@ -118,6 +141,29 @@ def run(rep, tier, seed, proof_ok):
     with cf.ThreadPoolExecutor(max_workers=C.NPROC) as ex:
         res = list(ex.map(run_case, cases))
         vres = list(ex.map(run_views, [{"cache": c} for c in CACHE]))
+        sres = list(ex.map(run_same_strings, [{"cache": c, "internal": i} for c in CACHE[:3] for i in ("absolute", "relative")]))
+    for r in sres:
+        c = r["case"]
+        rep.case("same-strings:" + json.dumps(c))
+        if "error" in r:
+            rep.violation("harness-error:c16", r["error"][-300:], r, no_input=True)
+            continue
+        r1, r2 = r["r1"], r["r2"]
+        want1 = {3: "L:value-s0", 7: "L:value-s1", 10: "L:value-s0"}
+        bad = [(i, r1[i], w) for i, w in want1.items() if r1[i] != w]
+        if not r1[2].startswith("V:value-s0") or not r1[6].startswith("V:value-s1"):
+            bad.append(("keep", r1[2], r1[6]))
+        if r1[11] != "V:value-s0:ran=0":
+            bad.append((11, r1[11], "V:value-s0:ran=0"))
+        if r2[2] != "L:value-s1":
+            bad.append(("second-process", r2[2], "L:value-s1"))
+        if not (r["files"]["proj_a"] and r["files"]["proj_b"]):
+            bad.append(("files", r["files"], "a link under each data directory"))
+        if bad:
+            rep.violation("config-same-strings-two-working-directories", f"the same relative configuration (internal={c['internal']}, cache_objects={c['cache']}) "
+                          f"used from two working directories in one process: {bad[:3]}", {"case": c, "r1": r1, "r2": r2, "files": r["files"]})
+    if False:
+        pass
     for r in res:
         c = r["case"]
         rep.case(json.dumps(c), nontrivial=(c["ishape"], c["dshape"]) != ("absolute", "absolute"))
